@@ -37,13 +37,14 @@ import (
 
 // VT is the shape of a service value position.
 type VT struct {
-	K   string // prim | opt (pointer to primitive) | arr | map | msg
-	P   string
-	E   *VT
-	Key *VT
-	Fs  []*VT
-	Req []bool // msg: required flag per field
-	V   *Val   // validation on this position
+	K    string // prim | opt (pointer to primitive) | arr | map | msg
+	P    string
+	E    *VT
+	Key  *VT
+	Fs   []*VT
+	Req  []bool // msg: required flag per field
+	V    *Val   // validation on this position
+	Cred bool   // a credential attribute (Token, APIKey, ...): values without blanks
 }
 
 func (o *oracle) vtOf(t *Ty, req bool, v *Val) *VT {
@@ -74,7 +75,12 @@ func (o *oracle) vtOf(t *Ty, req bool, v *Val) *VT {
 func (o *oracle) vtMsg(fs []Fld) *VT {
 	m := &VT{K: "msg"}
 	for i := range fs {
-		m.Fs = append(m.Fs, o.vtOf(fs[i].T, fs[i].Req, fs[i].V))
+		vt := o.vtOf(fs[i].T, fs[i].Req, fs[i].V)
+		// goa sends a credential holding a blank as it is (it is taken to carry its scheme
+		// prefix already) and the server strips everything up to the first blank: such
+		// values are outside the envelope
+		vt.Cred = fs[i].Sec != ""
+		m.Fs = append(m.Fs, vt)
 		m.Req = append(m.Req, fs[i].Req)
 	}
 	return m
@@ -222,6 +228,9 @@ func (g *valGen) value(t *VT, required bool) c10rt.Spec {
 	case "opt":
 		if g.r.Chance(1, 3) {
 			return c10rt.Spec{K: "nil"}
+		}
+		if t.Cred {
+			return c10rt.Spec{K: "str", S: []byte(vh.Pick(g.r, []string{"tok", "eyJhbGciOi.J9.x-y_z", "a/b+c=", "é"}))}
 		}
 		return g.prim(t.P, t.V)
 	case "arr":
@@ -392,6 +401,10 @@ func RandomTB(r *vh.RNG, responseMetadata bool) *Design {
 	offm := r.Intn(len(methodNames))
 	for i := 0; i < nm; i++ {
 		m := Meth{Name: methodNames[(offm+i)%len(methodNames)], Payload: io(), Result: io()}
+		if m.Payload.T == nil && g.r.Chance(1, 4) { // credentials travel as request metadata
+			m.Security = vh.Pick(g.r, secKinds)
+			m.Payload.Fields = insertSec(m.Payload.Fields, m.Security, g.r.Intn(len(m.Payload.Fields)+1), g.r.Bool(), 900+g.r.Intn(50))
+		}
 		if ps := g.primFields(m.Payload); len(ps) > 0 && g.r.Chance(1, 3) {
 			m.Metadata, _ = g.subset(ps, 1, 2)
 		}
@@ -510,11 +523,11 @@ func StandInPB(pkg string, f *PFile) string {
 // ------------------------------------------------------------------ the batch
 
 type tbMethod struct {
-	Name, VarName          string
-	PayloadRef, ResultRef  string
-	PVT, RVT               *VT
-	Mapped                 bool // metadata / headers / trailers present: outside the Coq value model
-	Cases                  []tbCase
+	Name, VarName         string
+	PayloadRef, ResultRef string
+	PVT, RVT              *VT
+	Mapped                bool // metadata / headers / trailers present: outside the Coq value model
+	Cases                 []tbCase
 }
 
 type tbCase struct {
@@ -598,7 +611,7 @@ func emitDesign(root string, td *tbDesign, r *vh.RNG, casesPerMethod int) (err e
 		m := &svc.Methods[mi]
 		ed := sd.Endpoints[mi]
 		tm := tbMethod{Name: m.Name, VarName: ed.Method.VarName, PayloadRef: ed.PayloadRef, ResultRef: ed.ResultRef,
-			PVT: o.vtIO(m.Payload), RVT: o.vtIO(m.Result), Mapped: len(m.Metadata)+len(m.Headers)+len(m.Trailers) > 0}
+			PVT: o.vtIO(m.Payload), RVT: o.vtIO(m.Result), Mapped: len(m.Metadata)+len(m.Headers)+len(m.Trailers) > 0 || m.Security != ""}
 		hasNarrow := strings.Contains(tm.PVT.coq()+tm.RVT.coq(), "PInt)") || strings.Contains(tm.PVT.coq()+tm.RVT.coq(), "PUInt)")
 		for c := 0; c < casesPerMethod; c++ {
 			mode := 0
